@@ -314,6 +314,24 @@ func VH_C16_CondRow(p []int) {
 		_, raw := el.([]any)
 		verifAssert(!raw, "no-raw-row-left-without-error")
 	}
+	// a sibling decoded from the same row with another value in the operator
+	// position (a real operator, a non-operator, nothing): whatever Marshal
+	// accepted compares with it, either way round, without panicking
+	if len(row) > 2 && err == nil && s.IsInit() {
+		row2 := append([]any{}, row...)
+		row2[2] = []any{Eq, "=", nil}[nondetChoice(3)]
+		var sib Stack
+		var errSib error
+		if p[1] == 0 {
+			errSib = sib.Marshal(row2...)
+		} else {
+			errSib = sib.Marshal("AND", "lead", row2)
+		}
+		if errSib == nil && sib.IsInit() {
+			e1, e2 := s.IsEqual(sib), sib.IsEqual(s)
+			verifAssert((e1 == nil) == (e2 == nil), "sibling-verdict-symmetric")
+		}
+	}
 	// an initialised receiver gains exactly one element when no error is reported
 	r2 := And().Push("have")
 	if p[1] == 0 {
